@@ -147,6 +147,23 @@ pub fn render_with(rng: &mut Rng, cv: &Conv, inv: &Invocation, allow_explicit_es
                         if let Item::Flag { arg: b } = &inv.items[j] { if cv.cmd.args[*b].short.is_some() { if escape_at != Some(j) { cl.push(short_name(rng, &cv.cmd.args[*b])); j += 1; continue; } } }
                         break;
                     }
+                    // the cluster may end in a value-taking short: `-fo=v`, `-fov`, `-fo v`
+                    if attached_short && j < inv.items.len() && escape_at != Some(j) && rng.chance(1, 3) {
+                        if let Item::Opt { arg: b, vals } = &inv.items[j] {
+                            let ob = &cv.cmd.args[*b];
+                            if ob.short.is_some() && vals.len() == 1 && !(ob.num_vals.map(|(_, hi)| hi != Some(1)).unwrap_or(false)) {
+                                let v = &vals[0];
+                                cl.push(short_name(rng, ob));
+                                let mut bytes = cl.clone().into_bytes();
+                                match rng.below(3) {
+                                    0 if !v.is_empty() && v[0] != b'=' => { bytes.extend_from_slice(v); argv.push(bytes); }
+                                    1 => { bytes.push(b'='); bytes.extend_from_slice(v); argv.push(bytes); }
+                                    _ => { argv.push(bytes); argv.push(v.clone()); }
+                                }
+                                i = j + 1; continue;
+                            }
+                        }
+                    }
                     if j > i + 1 || a.long.is_none() || rng.chance(1, 2) { argv.push(cl.into_bytes()); i = j; continue; }
                 }
                 argv.push(long_name(rng, cv, a).into_bytes());
